@@ -2,6 +2,7 @@ import JwtModel.V1
 import JwtProofs.Decode
 import Props.CodecRoundTrip
 import Props.CodecText
+import Props.FnTie
 /-!
 # C19 — the bundled version-1 library is self-consistent
 
